@@ -1,6 +1,7 @@
 package mon
 
 import (
+	"bytes"
 	"encoding/json"
 	"fmt"
 	"math/rand"
@@ -41,7 +42,7 @@ func (c03) Cases(tier string, race bool) int {
 	return 100000
 }
 
-var c03keys = []string{"a", "b", "c", "d", "e1", "x-y", "Z_z", "ns:q"}
+var c03keys = []string{"a", "b", "c", "d", "e1", "x-y", "Z_z", "ns:q", "doc", "element"}
 var c03strs = []string{"", "t", "hello", " pad ", "<&>\"'", "&amp;", "&lt;", "1", "true", "é世", "a]]>b", "x\ny", "<![CDATA[q]]>", "--", "</a>", `\u003c`, `a\u0026b\u003e`, "100%"}
 
 func c03scalar(r *rand.Rand) interface{} {
@@ -265,8 +266,16 @@ func (c03) Case(c *core.Ctx) {
 		value = m
 		tag := []string{}
 		if r.Intn(4) == 0 {
-			tag = []string{"root-tag"}
+			tag = []string{[]string{"root-tag", "a", "doc", "b"}[r.Intn(4)]} // also a tag equal to one of the keys
 			c.Count("root:explicit-tag")
+		}
+		if r.Intn(6) == 0 {
+			// pad one string so that the compact encoding is exactly a multiple of 4096 bytes (buffer boundaries)
+			m["pad"] = "p"
+			if x0, e0 := mxj.Map(m).Xml(tag...); e0 == nil {
+				m["pad"] = strings.Repeat("p", 1+(4096-len(x0)%4096)%4096)
+				c.Count("shape:output-multiple-of-4096")
+			}
 		}
 		if len(m) == 1 && len(tag) == 0 {
 			c.Count("root:single-key")
@@ -286,11 +295,26 @@ func (c03) Case(c *core.Ctx) {
 			func() (string, []byte, error) {
 				b, e := mxj.Map(m).XmlIndent(prefix, indent, tag...)
 				return "Map.XmlIndent", b, e
+			},
+			func() (string, []byte, error) {
+				var w bytes.Buffer
+				e := mxj.Map(m).XmlWriter(&w, tag...)
+				return "Map.XmlWriter", w.Bytes(), e
+			},
+			func() (string, []byte, error) {
+				var w bytes.Buffer
+				e := mxj.Map(m).XmlIndentWriter(&w, prefix, indent, tag...)
+				return "Map.XmlIndentWriter", w.Bytes(), e
 			})
 		if len(tag) == 0 && r.Intn(3) == 0 && !hasJSONNumber(m) { // (a JSON text round trip cannot keep float64 and json.Number leaves apart)
 			if jb, e := json.Marshal(m); e == nil {
 				c.Count("api:j2x.JsonToXml")
-				encs = append(encs, func() (string, []byte, error) { b, e := j2x.JsonToXml(jb); return "j2x.JsonToXml", b, e })
+				encs = append(encs, func() (string, []byte, error) { b, e := j2x.JsonToXml(jb); return "j2x.JsonToXml", b, e },
+					func() (string, []byte, error) {
+						var w bytes.Buffer
+						e := j2x.JsonToXmlWriter(jb, &w)
+						return "j2x.JsonToXmlWriter", w.Bytes(), e
+					})
 			}
 		}
 	default: // AnyXml
@@ -300,7 +324,8 @@ func (c03) Case(c *core.Ctx) {
 		tags := []string{}
 		switch r.Intn(4) {
 		case 0:
-			rt, tags = "top", []string{"top"}
+			rt = []string{"top", "a", "doc"}[r.Intn(3)]
+			tags = []string{rt}
 			c.Count("root:explicit-tag")
 		case 1:
 			rt, et, tags = "top", "item", []string{"top", "item"}
